@@ -43,6 +43,9 @@ type crashRun struct {
 	nImages     int
 	nChecked    int
 	nOpened     int
+	nCont       int
+	contEvery   int  // run a continuation on every n-th successfully recovered image (0 = never)
+	contMerge   bool // C07: continuation = deletes + a new Merge
 	enabled     bool
 	// options
 	powerLoss   bool
@@ -539,6 +542,161 @@ func (c *crashRun) checkImage(img, kind string, ev mon.Event, dmin, a int, extra
 		if cerr := db.Close(); cerr != nil {
 			c.res.Violate(fmt.Sprintf("%s image at %s: Close after recovery failed: %v", kind, c.evLabel, cerr), c.feats(kind, ev, "close-error"), c.detail(extra, d))
 			return
+		}
+	}
+	// life goes on after a recovery: further writes, batches, a clean restart, a second crash
+	if m0 := c.lookup(matched); m0 != nil && (c.contEvery > 0 || c.contMerge) {
+		c.nCont++
+		if c.contMerge {
+			if c.nCont%6 == 0 {
+				c.mergeContinuation(img, m0, kind, ev, extra)
+			}
+			return
+		}
+		every := c.contEvery
+		if c.pending != nil {
+			every = max(1, every/4) // images taken inside a mutation (unsealed batches) matter most
+		}
+		if c.nCont%every == 0 {
+			c.continuation(img, m0, kind, ev, extra)
+		}
+	}
+}
+
+// continuation: the recovered image keeps being used. After a put, a committed batch and an
+// explicit Sync (state M1, durable), one more unsynced put (M2); a clean restart must show M2,
+// and a second crash that tears the unsynced put (standard I/O) must show M1. What a crash left
+// behind (records of a batch that never got its sealing record, a truncated tail) must stay
+// dead whatever is appended after it.
+func (c *crashRun) continuation(img string, m0 *core.Model, kind string, ev mon.Event, extra string) {
+	dir := filepath.Join(img, "db")
+	cfg := c.cfg
+	cfg.Sync = 0 // the harness decides what is flushed
+	tmp := core.Result{}
+	s := core.NewSession(dir, cfg, &tmp)
+	s.M = m0.Clone()
+	report := func(stage string) bool {
+		if tmp.Verdict != "violated" {
+			return false
+		}
+		v := tmp.Violations[0]
+		c.res.Violate(fmt.Sprintf("%s image at %s (%s), continued after recovery (%s): %s", kind, c.evLabel, extra, stage, v.Msg),
+			c.feats(kind+"+continuation", ev, stage), map[string]any{"detail": c.detail(extra, nil), "continuation_ops": s.Log})
+		return true
+	}
+	if !s.Open() {
+		report("open")
+		return
+	}
+	var keys [][]byte
+	for k := range c.ever {
+		if k != "~after-crash" {
+			keys = append(keys, []byte(k))
+		}
+	}
+	if len(keys) == 0 {
+		s.Close()
+		return
+	}
+	sortKeys(keys)
+	r := c.r
+	pick := func() []byte { return keys[r.Intn(len(keys))] }
+	s.Exec(core.Op{Kind: "put", Key: pick(), VLen: r.Range(1, 300), VSeed: r.U64() | 1})
+	b := core.Op{Kind: "batch", Sub: []core.Op{{Kind: "put", Key: pick(), VLen: r.Range(0, 200), VSeed: r.U64() | 1}, {Kind: "del", Key: pick()}, {Kind: "put", Key: pick(), VLen: r.Range(1, 100), VSeed: r.U64() | 1}}}
+	s.Exec(b)
+	s.Exec(core.Op{Kind: "sync"})
+	if report("writes") {
+		return
+	}
+	m1 := s.M.Clone()
+	newest := func() (string, int64) {
+		fs := core.DataFiles(dir)
+		if len(fs) == 0 {
+			return "", 0
+		}
+		st, err := os.Stat(filepath.Join(dir, fs[len(fs)-1]))
+		if err != nil {
+			return "", 0
+		}
+		return fs[len(fs)-1], st.Size()
+	}
+	n0, size0 := newest()
+	s.Exec(core.Op{Kind: "put", Key: pick(), VLen: r.Range(40, 500), VSeed: r.U64() | 1})
+	if report("unsynced put") {
+		return
+	}
+	n1, size1 := newest()
+	second := ""
+	if cfg.FileIO == 0 && n0 == n1 && size1-size0 > 16 {
+		second = c.w.Dir("img2")
+		if mon.CopyTree(img, second) == nil {
+			cut := size0 + int64(r.Range(1, int(size1-size0)-1))
+			os.Truncate(filepath.Join(second, "db", n1), cut)
+		} else {
+			second = ""
+		}
+	}
+	// clean restart
+	s.Exec(core.Op{Kind: "restart"})
+	c.res.Add("continuations", 1)
+	if report("clean-restart") {
+		return
+	}
+	s.Close()
+	if second != "" {
+		t2 := core.Result{}
+		s2 := core.NewSession(filepath.Join(second, "db"), cfg, &t2)
+		s2.M = m1
+		if s2.Open() {
+			s2.CheckDump("after the second crash")
+			s2.Close()
+		}
+		c.res.Add("continuations_second_crash", 1)
+		if t2.Verdict == "violated" {
+			c.res.Violate(fmt.Sprintf("%s image at %s (%s), continued after recovery, then a second crash tearing the unsynced tail: %s", kind, c.evLabel, extra, t2.Violations[0].Msg),
+				c.feats(kind+"+continuation", ev, "second-crash"), map[string]any{"detail": c.detail(extra, nil), "continuation_ops": s.Log})
+		}
+		os.RemoveAll(second)
+	}
+}
+
+// mergeContinuation (C07): an image taken inside Merge (an unfinished merge directory) is
+// recovered, keys are deleted and rewritten, a new Merge runs to completion and is adopted.
+func (c *crashRun) mergeContinuation(img string, m0 *core.Model, kind string, ev mon.Event, extra string) {
+	dir := filepath.Join(img, "db")
+	tmp := core.Result{}
+	s := core.NewSession(dir, c.cfg, &tmp)
+	s.M = m0.Clone()
+	if !s.Open() {
+		return
+	}
+	ks := s.M.Keys()
+	for i, k := range ks {
+		if i%2 == 0 {
+			s.Exec(core.Op{Kind: "del", Key: []byte(k)})
+		} else if i%5 == 1 {
+			s.Exec(core.Op{Kind: "put", Key: []byte(k), VLen: c.r.Range(1, 200), VSeed: c.r.U64() | 1})
+		}
+	}
+	s.Exec(core.Op{Kind: "merge"})
+	s.Exec(core.Op{Kind: "restart"})
+	if !s.Dead {
+		s.Exec(core.Op{Kind: "restart"})
+	}
+	if s.DB != nil {
+		s.Close()
+	}
+	c.res.Add("merge_continuations", 1)
+	if tmp.Verdict == "violated" {
+		c.res.Violate(fmt.Sprintf("%s image at %s (%s), recovered, then deletes + a new Merge + adoption: %s", kind, c.evLabel, extra, tmp.Violations[0].Msg),
+			c.feats(kind+"+merge-continuation", ev, "later-merge"), map[string]any{"detail": c.detail(extra, nil), "continuation_ops": s.Log})
+	}
+}
+
+func sortKeys(k [][]byte) {
+	for i := 1; i < len(k); i++ {
+		for j := i; j > 0 && string(k[j]) < string(k[j-1]); j-- {
+			k[j], k[j-1] = k[j-1], k[j]
 		}
 	}
 }
